@@ -78,6 +78,9 @@ Check (C19_encoder_frame_bound : forall o L si rate bps number chans bytes,
   enc_frame_bytes o L rate bps number chans = Some bytes -> block_ok si bps chans ->
   let ch := N.of_nat (length chans) in let n := block_len chans in
   N.of_nat (length bytes) <= 16 + (ch * (8 + n * bps) + (if ch =? 2 then n else 0) + 7) / 8 + 2).
+Check (C19_encoder_constant_block : forall o L bps c n,
+  (1 <= n)%nat -> fits bps c = true -> 1 <= bps -> bps <= 32 ->
+  sf_bits bps (enc_sub o L bps (repeat c n)) <= 96).
 (* block_ok is what it says *)
 Check (eq_refl : block_ok = fun si bps chans =>
   (1 <= length chans <= 8)%nat /\ 1 <= bps /\ bps <= 32 /\
